@@ -1,6 +1,7 @@
 import LunarVerif.Proofs.C06Trace
 import LunarVerif.Proofs.C06Heap
-import LunarVerif.Proofs.C06Bound
+import LunarVerif.Proofs.C06Drain
+import LunarVerif.Proofs.C06Ttl
 /-!
 Helper lemmas for C06, part 5: a run of macro-operations (what the driver executes) is a run of
 the interleaving model under the flat schedule `schedule`; without a `drain` op that schedule
